@@ -215,12 +215,16 @@ API_PROPS["C16"] = dict(methods="all", title="values are copied in and out")
 API_PROPS["C11"] = dict(methods="mutator", title="forbidden data never gets in")
 def c02_tasks(pid, tier, repo, seed, R):
     tasks = def_tasks(pid, tier, repo, seed, R)
-    # SyncedList._update: loop invariant not written yet -> bounded stand-in (labelled bounded, not proved)
-    lists = [c for c in concrete_classes(R) if R["classes"][c]["kind"] == "list"]
-    sweeps = [(f"{c}._update@SyncedList._update", "replay/update_replay.py", ["search", c],
-               "all ordered pairs of 20 documents (value->null/scalar/other kind/same kind, shorter/longer lists); "
-               "every retained child handle") for c in (lists if tier == "thorough" else lists[:3])]
-    tasks.append(dict(kind="bounded", repo=repo, seed=seed, props=[pid], sweeps=sweeps, threads=True, label=f"{pid}:bounded:list-update"))
+    # SyncedList._update / SyncedDict._update are proved against their contract (loop invariants in contracts/tree.py).
+    # Thorough tier: a CPython differential sweep of the same functions as a cross-check of the contract's reading of
+    # Python (labelled bounded, never counted as proved).
+    if tier == "thorough":
+        lists = [c for c in concrete_classes(R) if R["classes"][c]["kind"] == "list"]
+        sweeps = [(f"{c}._update@SyncedList._update", "replay/update_replay.py", ["search", c],
+                   "cross-check: all ordered pairs of 20 documents (value->null/scalar/other kind/same kind, "
+                   "shorter/longer lists); every retained child handle") for c in lists]
+        tasks.append(dict(kind="bounded", repo=repo, seed=seed, props=[pid], sweeps=sweeps, threads=True,
+                          label=f"{pid}:bounded:list-update-crosscheck"))
     tasks.append(dict(kind="validators", repo=repo, seed=seed, what="lemma", props=[pid], threads=True, label=f"{pid}:lemma"))
     return tasks
 
